@@ -159,6 +159,52 @@ fn main() {
     }
 }
 
+/// The executable against the library entry point: `main.rs` (argument parsing, the real stdin/stdout/stderr, the
+/// exit status) is glue that `jawk::go` with in-memory streams never runs.  A sample of the cases of EVERY property
+/// (stdin-only, no injected fault) is run through the real binary as well; the two must write the same bytes to
+/// standard output and standard error, and exit 0 exactly when the library call succeeds.
+fn binary_crosscheck(prop: &str, g: &gens::Group, robs: &[Obs], labels: &mut BTreeMap<String, usize>) -> Option<String> {
+    use std::hash::{Hash, Hasher};
+    let percent: u64 = match prop { "C06" | "C16" => 12, "C20" => 0, "C05" | "C14" => 1, _ => 4 };
+    for (c, lib) in g.cases.iter().zip(robs) {
+        if !(c.mode == "run" || c.mode.is_empty()) || c.sources.len() > 1 || c.sources.iter().any(|s| s.name.is_some()) || c.rerr.is_some()
+            || c.wfail.is_some() || c.efail.is_some() || c.endless.is_some() || !c.chunks.is_empty() || !c.orc.is_empty() {
+            continue;
+        }
+        if matches!(lib.res.as_str(), "abort:crash" | "hang" | "abort:panic" | "err:clap") {
+            continue;
+        }
+        let mut h = std::collections::hash_map::DefaultHasher::new();
+        c.id.hash(&mut h);
+        if h.finish() % 100 >= percent {
+            continue;
+        }
+        let argv = c.argv("/nonexistent");
+        let input: &[u8] = c.sources.first().map(|s| s.bytes.as_slice()).unwrap_or(b"");
+        let run = match oracle_b::spawn_jawk(&argv[1..], input, oracle_b::StdoutKind::Pipe) {
+            Ok(r) => r,
+            Err(_) => return None, // no executable: nothing to compare with
+        };
+        *labels.entry("binary-crosscheck".to_string()).or_insert(0) += 1;
+        if run.timed_out {
+            return Some(format!("{}: the executable did not finish within 20 s although the library call did", c.id));
+        }
+        let code = run.code.unwrap_or(-1);
+        if (code == 0) != (lib.res == "ok") {
+            return Some(format!("{}: the executable exits with status {code} but the same run through the library entry point ended with {}", c.id, lib.res));
+        }
+        if run.out != lib.out {
+            return Some(format!("{}: standard output of the executable differs from what the library entry point writes: {:?} vs {:?}",
+                                c.id, show_bytes(&run.out).chars().take(200).collect::<String>(), show_bytes(&lib.out).chars().take(200).collect::<String>()));
+        }
+        if lib.res == "ok" && run.err != lib.err {
+            return Some(format!("{}: standard error of the executable differs from what the library entry point writes: {:?} vs {:?}",
+                                c.id, show_bytes(&run.err).chars().take(200).collect::<String>(), show_bytes(&lib.err).chars().take(200).collect::<String>()));
+        }
+    }
+    None
+}
+
 /// watchdog: a case that takes longer than this hangs the harness; abort loudly
 fn start_watchdog(current: std::sync::Arc<std::sync::Mutex<(String, std::time::Instant)>>, limit_s: u64) {
     std::thread::spawn(move || loop {
@@ -256,6 +302,8 @@ fn cmd_run(args: &Args) -> i32 {
         if f9 {
             *known_hits.entry("F9".to_string()).or_insert(0) += 1;
         } else if let Some(msg) = props::oracle(prop, g, robs) {
+            oracle_failures.push((g.cases.iter().map(|c| c.line(&scratch.dir)).collect(), msg));
+        } else if let Some(msg) = binary_crosscheck(prop, g, robs, &mut labels) {
             oracle_failures.push((g.cases.iter().map(|c| c.line(&scratch.dir)).collect(), msg));
         }
         for l in &g.labels {
